@@ -134,7 +134,8 @@ def gen(rng, idx, tier, seed):
     if idx < NQUERY[tier]:
         kind = ['cf', 'cf', 'ioapi', 'griddesc0', 'cf', 'ioapi635'][idx % 6]
         spec = {'mode': 'query', 'kind': kind,
-                'qseed': int(rng.integers(1 << 30))}
+                'qseed': int(rng.integers(1 << 30)),
+                'disk': bool(idx % 4 == 1 and kind in ('cf', 'ioapi'))}
         if kind == 'cf':
             fs = gen_core.gen_filespec(
                 rng, names=['time', 'x', 'y', 'lev'], coord_prob=1.0,
@@ -402,7 +403,19 @@ def queries_for(f, spec, rng):
 
 
 def run_query(spec, res):
+    with harness.casedir() as d, harness.handles() as h:
+        run_query_in(spec, res, d, h)
+
+
+def run_query_in(spec, res, d, h):
     f = build_query_file(spec)
+    if spec.get('disk'):
+        # the receiver is a file on disk (saved, opened again)
+        g = harness.to_disk(f, d, h, fmt='ioapi' if spec['kind'].startswith(
+            'ioapi') else 'netcdf')
+        if g is not None:
+            f = g
+            res.facet('query-source:disk')
     rng = np.random.default_rng([spec['qseed'], 5])
     qs = queries_for(f, spec, rng)
     base = snapshot.file_digest_bytes(snapshot.snap_file(f))
@@ -414,7 +427,15 @@ def run_query(spec, res):
         except (Exception, SystemExit) as e:
             err = e     # pncdump calls exit() when it fails
         res.hook('query.return')
-        post = snapshot.snap_file(f)
+        try:
+            post = snapshot.snap_file(f)
+        except Exception as e2:
+            res.ev(digest([name, base]), True, 'query:' + name.split(':')[0])
+            res.viol('query-invalidated-file:%s' % name.split('(')[0],
+                     'after %s the %s file can no longer be read: %r'
+                     % (name, spec['kind'], e2), query=name,
+                     filekind=spec['kind'])
+            return
         res.hook('input-unchanged.compare')
         d = snapshot.diff_file(pre, post)
         res.ev(digest([name, base]), True, 'query:' + name.split(':')[0])
